@@ -101,6 +101,287 @@ theorem dbscan_ids_contiguous :
 
 end dbscan
 
+/-- cluster ids are handed out **in the order of the smallest core sample**: for ids `v < w` in use
+there is a core sample labelled `v` that precedes every core sample labelled `w` -/
+theorem dbscan_ids_by_first_core (nbrs : Nat → List Nat) (mp n : Nat)
+    (hrange : ∀ i, ∀ j ∈ nbrs i, j < n) (hnd : ∀ i, (nbrs i).Nodup)
+    (hsym : ∀ i j, j ∈ nbrs i → i ∈ nbrs j)
+    (v w y : Nat) (hvw : v < w) (hy : core nbrs mp y) (hyw : isLab (dbscan (some nbrs) mp n) y w) :
+    ∃ s, core nbrs mp s ∧ isLab (dbscan (some nbrs) mp n) s v ∧
+      ∀ y', core nbrs mp y' → isLab (dbscan (some nbrs) mp n) y' w → s < y' := by
+  have hw := (OInv_run nbrs mp n hrange hnd hsym n).g.lt y w hyw
+  obtain ⟨s, _, s2, s3, s4⟩ := Ord_run nbrs mp n hrange hnd hsym n v (by omega)
+  exact ⟨s, s2, s3, fun y' hy' hl => s4 y' w hy' hl hvw⟩
+
+/-- a chain of core samples carries one label -/
+theorem dbscan_conn_same_label (nbrs : Nat → List Nat) (mp n : Nat)
+    (hrange : ∀ i, ∀ j ∈ nbrs i, j < n) (hnd : ∀ i, (nbrs i).Nodup)
+    (hsym : ∀ i j, j ∈ nbrs i → i ∈ nbrs j)
+    (s x v : Nat) (hs : isLab (dbscan (some nbrs) mp n) s v) (hc : Conn nbrs mp s x) :
+    isLab (dbscan (some nbrs) mp n) x v := by
+  induction hc with
+  | refl => exact hs
+  | @step y z _ hcy hcz hz ih =>
+    have hzn : z < n := hrange y z hz
+    obtain ⟨w, hw⟩ := (dbscan_labelled_iff nbrs mp n hrange hnd hsym z hzn).mpr (Or.inl hcz)
+    have := dbscan_core_adjacent_same nbrs mp n hrange hnd hsym y z v w hcy hcz hz ih hw
+    subst this; exact hw
+
+/-! ### The density clustering is a function of the neighbour RELATION
+
+Two neighbour functions that return the same samples for every query — in any order, as different
+indices do — give: the same labelled samples, the same noise, the same partition of the core samples
+**with the same cluster ids**, and border samples labelled by a core sample in range in either run;
+the two label vectors can differ only on a border sample in range of core samples of two clusters. -/
+section determined
+variable (nbrs₁ nbrs₂ : Nat → List Nat) (mp n : Nat)
+  (hr₁ : ∀ i, ∀ j ∈ nbrs₁ i, j < n) (hnd₁ : ∀ i, (nbrs₁ i).Nodup)
+  (hsym₁ : ∀ i j, j ∈ nbrs₁ i → i ∈ nbrs₁ j)
+  (hr₂ : ∀ i, ∀ j ∈ nbrs₂ i, j < n) (hnd₂ : ∀ i, (nbrs₂ i).Nodup)
+  (hsym₂ : ∀ i j, j ∈ nbrs₂ i → i ∈ nbrs₂ j)
+  (hset : ∀ i j, j ∈ nbrs₁ i ↔ j ∈ nbrs₂ i)
+
+section
+include hnd₁ hnd₂ hset
+theorem core_congr (x : Nat) : core nbrs₁ mp x ↔ core nbrs₂ mp x := by
+  unfold core
+  rw [((List.perm_ext_iff_of_nodup (hnd₁ x) (hnd₂ x)).mpr (hset x)).length_eq]
+
+theorem Conn_congr (s x : Nat) (h : Conn nbrs₁ mp s x) : Conn nbrs₂ mp s x := by
+  induction h with
+  | refl => exact Conn.refl _
+  | step _ hcy hcz hz ih =>
+    exact Conn.step ih ((core_congr nbrs₁ nbrs₂ mp hnd₁ hnd₂ hset _).mp hcy)
+      ((core_congr nbrs₁ nbrs₂ mp hnd₁ hnd₂ hset _).mp hcz) ((hset _ _).mp hz)
+end
+
+/-- the start of a chain of core samples that ends in the dataset lies in the dataset -/
+theorem Conn_lt (a : Nat → List Nat) (mp n : Nat) (hra : ∀ i, ∀ j ∈ a i, j < n)
+    (hsa : ∀ i j, j ∈ a i → i ∈ a j) (s x : Nat) (h : Conn a mp s x) (hx : x < n) : s < n := by
+  induction h with
+  | refl => exact hx
+  | @step y z _ _ _ hz ih => exact ih (hra z y (hsa y z hz))
+
+/-- one direction of "same partition of the core samples" -/
+theorem dbscan_partition_dir (a b : Nat → List Nat) (mp n : Nat)
+    (hra : ∀ i, ∀ j ∈ a i, j < n) (hna : ∀ i, (a i).Nodup) (hsa : ∀ i j, j ∈ a i → i ∈ a j)
+    (hrb : ∀ i, ∀ j ∈ b i, j < n) (hnb : ∀ i, (b i).Nodup) (hsb : ∀ i j, j ∈ b i → i ∈ b j)
+    (hab : ∀ i j, j ∈ a i ↔ j ∈ b i) (x y : Nat) (hx : core a mp x) (hy : core a mp y)
+    (h : ∃ v, isLab (dbscan (some a) mp n) x v ∧ isLab (dbscan (some a) mp n) y v) :
+    ∃ v, isLab (dbscan (some b) mp n) x v ∧ isLab (dbscan (some b) mp n) y v := by
+  obtain ⟨v, hxv, hyv⟩ := h
+  obtain ⟨s, hs, c1, c2⟩ := dbscan_components_differ a mp n hra hna hsa x y v hx hy hxv hyv
+  have hxn : x < n := by
+    have := isLab_lt hxv; rw [dbscan_length a mp n hra hna hsa] at this; exact this
+  have hsn : s < n := Conn_lt a mp n hra hsa s x c1 hxn
+  have hsb' : core b mp s := (core_congr a b mp hna hnb hab s).mp hs
+  obtain ⟨w, hw⟩ := (dbscan_labelled_iff b mp n hrb hnb hsb s hsn).mpr (Or.inl hsb')
+  exact ⟨w, dbscan_conn_same_label b mp n hrb hnb hsb s x w hw (Conn_congr a b mp hna hnb hab s x c1),
+    dbscan_conn_same_label b mp n hrb hnb hsb s y w hw (Conn_congr a b mp hna hnb hab s y c2)⟩
+
+include hr₁ hnd₁ hsym₁ hr₂ hnd₂ hsym₂ hset
+
+/-- same labelled samples -/
+theorem dbscan_labelled_determined (x : Nat) (hx : x < n) :
+    (∃ v, isLab (dbscan (some nbrs₁) mp n) x v) ↔ (∃ v, isLab (dbscan (some nbrs₂) mp n) x v) := by
+  rw [dbscan_labelled_iff nbrs₁ mp n hr₁ hnd₁ hsym₁ x hx, dbscan_labelled_iff nbrs₂ mp n hr₂ hnd₂ hsym₂ x hx]
+  have cc := core_congr nbrs₁ nbrs₂ mp hnd₁ hnd₂ hset
+  constructor
+  · rintro (a | ⟨y, y1, y2⟩)
+    · exact Or.inl ((cc x).mp a)
+    · exact Or.inr ⟨y, (cc y).mp y1, (hset y x).mp y2⟩
+  · rintro (a | ⟨y, y1, y2⟩)
+    · exact Or.inl ((cc x).mpr a)
+    · exact Or.inr ⟨y, (cc y).mpr y1, (hset y x).mpr y2⟩
+
+/-- same noise samples -/
+theorem dbscan_noise_determined (x : Nat) :
+    (dbscan (some nbrs₁) mp n)[x]? = some none ↔ (dbscan (some nbrs₂) mp n)[x]? = some none := by
+  have key : ∀ (a b : Nat → List Nat) (hra : ∀ i, ∀ j ∈ a i, j < n) (hna : ∀ i, (a i).Nodup)
+      (hsa : ∀ i j, j ∈ a i → i ∈ a j) (hrb : ∀ i, ∀ j ∈ b i, j < n) (hnb : ∀ i, (b i).Nodup)
+      (hsb : ∀ i j, j ∈ b i → i ∈ b j)
+      (hlab : ∀ x, x < n → ((∃ v, isLab (dbscan (some a) mp n) x v) ↔ (∃ v, isLab (dbscan (some b) mp n) x v))),
+      (dbscan (some a) mp n)[x]? = some none → (dbscan (some b) mp n)[x]? = some none := by
+    intro a b hra hna hsa hrb hnb hsb hlab h
+    have hxa : x < (dbscan (some a) mp n).length := (List.getElem?_eq_some_iff.mp h).1
+    have hx : x < n := by rw [dbscan_length a mp n hra hna hsa] at hxa; exact hxa
+    rcases lab_cases (dbscan (some b) mp n) x (by rw [dbscan_length b mp n hrb hnb hsb]; exact hx) with u | ⟨v, hv⟩
+    · exact (unl_iff _ _).mp u
+    · obtain ⟨w, hw⟩ := (hlab x hx).mpr ⟨v, hv⟩
+      unfold isLab at hw; rw [h] at hw; simp at hw
+  constructor
+  · exact key nbrs₁ nbrs₂ hr₁ hnd₁ hsym₁ hr₂ hnd₂ hsym₂
+      (dbscan_labelled_determined nbrs₁ nbrs₂ mp n hr₁ hnd₁ hsym₁ hr₂ hnd₂ hsym₂ hset)
+  · exact key nbrs₂ nbrs₁ hr₂ hnd₂ hsym₂ hr₁ hnd₁ hsym₁
+      (fun x hx => (dbscan_labelled_determined nbrs₁ nbrs₂ mp n hr₁ hnd₁ hsym₁ hr₂ hnd₂ hsym₂ hset x hx).symm)
+
+
+
+/-- **same partition of the core samples into clusters** -/
+theorem dbscan_core_partition_determined (x y : Nat) (hx : core nbrs₁ mp x) (hy : core nbrs₁ mp y) :
+    (∃ v, isLab (dbscan (some nbrs₁) mp n) x v ∧ isLab (dbscan (some nbrs₁) mp n) y v) ↔
+    (∃ v, isLab (dbscan (some nbrs₂) mp n) x v ∧ isLab (dbscan (some nbrs₂) mp n) y v) := by
+  have cc := core_congr nbrs₁ nbrs₂ mp hnd₁ hnd₂ hset
+  constructor
+  · exact dbscan_partition_dir nbrs₁ nbrs₂ mp n hr₁ hnd₁ hsym₁ hr₂ hnd₂ hsym₂ hset x y hx hy
+  · exact dbscan_partition_dir nbrs₂ nbrs₁ mp n hr₂ hnd₂ hsym₂ hr₁ hnd₁ hsym₁ (fun i j => (hset i j).symm) x y
+      ((cc x).mp hx) ((cc y).mp hy)
+
+/-- **a border sample is labelled, in either run, with the label of a core sample that has it in range**
+(in the terms of the first relation) -/
+theorem dbscan_border_determined (x : Nat) (hb : ¬ core nbrs₁ mp x) :
+    (∀ v, isLab (dbscan (some nbrs₁) mp n) x v →
+      ∃ y, core nbrs₁ mp y ∧ isLab (dbscan (some nbrs₁) mp n) y v ∧ x ∈ nbrs₁ y) ∧
+    (∀ v, isLab (dbscan (some nbrs₂) mp n) x v →
+      ∃ y, core nbrs₁ mp y ∧ isLab (dbscan (some nbrs₂) mp n) y v ∧ x ∈ nbrs₁ y) := by
+  have cc := core_congr nbrs₁ nbrs₂ mp hnd₁ hnd₂ hset
+  refine ⟨fun v hv => dbscan_border_label nbrs₁ mp n hr₁ hnd₁ hsym₁ x v hv hb, fun v hv => ?_⟩
+  obtain ⟨y, y1, y2, y3⟩ := dbscan_border_label nbrs₂ mp n hr₂ hnd₂ hsym₂ x v hv (fun h => hb ((cc x).mpr h))
+  exact ⟨y, (cc y).mpr y1, y2, (hset y x).mpr y3⟩
+
+/-- **the cluster ids of the core samples are determined** (same partition, both runs number the
+clusters by their smallest core sample): a core sample carries the same label in both runs -/
+theorem dbscan_core_labels_determined (x : Nat) (hx : core nbrs₁ mp x) :
+    (dbscan (some nbrs₁) mp n)[x]? = (dbscan (some nbrs₂) mp n)[x]? := by
+  have cc := core_congr nbrs₁ nbrs₂ mp hnd₁ hnd₂ hset
+  by_cases hxn : x < n
+  · have lab₁ : ∀ z, (core nbrs₁ mp z ∧ z < n) → ∃ v, isLab (dbscan (some nbrs₁) mp n) z v :=
+      fun z hz => (dbscan_labelled_iff nbrs₁ mp n hr₁ hnd₁ hsym₁ z hz.2).mpr (Or.inl hz.1)
+    have lab₂ : ∀ z, (core nbrs₁ mp z ∧ z < n) → ∃ v, isLab (dbscan (some nbrs₂) mp n) z v :=
+      fun z hz => (dbscan_labelled_iff nbrs₂ mp n hr₂ hnd₂ hsym₂ z hz.2).mpr (Or.inl ((cc z).mp hz.1))
+    have ltn₁ : ∀ z v, isLab (dbscan (some nbrs₁) mp n) z v → z < n := by
+      intro z v h; have := isLab_lt h; rw [dbscan_length nbrs₁ mp n hr₁ hnd₁ hsym₁] at this; exact this
+    have ltn₂ : ∀ z v, isLab (dbscan (some nbrs₂) mp n) z v → z < n := by
+      intro z v h; have := isLab_lt h; rw [dbscan_length nbrs₂ mp n hr₂ hnd₂ hsym₂] at this; exact this
+    have key := labels_eq_of_spec (fun z => core nbrs₁ mp z ∧ z < n)
+      (dbscan (some nbrs₁) mp n) (dbscan (some nbrs₂) mp n) lab₁ lab₂
+      (fun a b ha hb => dbscan_core_partition_determined nbrs₁ nbrs₂ mp n hr₁ hnd₁ hsym₁ hr₂ hnd₂ hsym₂ hset
+        a b ha.1 hb.1)
+      (fun v w y hvw hy hyw => by
+        obtain ⟨s, s1, s2, s3⟩ := dbscan_ids_by_first_core nbrs₁ mp n hr₁ hnd₁ hsym₁ v w y hvw hy.1 hyw
+        exact ⟨s, ⟨s1, ltn₁ s v s2⟩, s2, fun y' hy' hl => s3 y' hy'.1 hl⟩)
+      (fun v w y hvw hy hyw => by
+        obtain ⟨s, s1, s2, s3⟩ := dbscan_ids_by_first_core nbrs₂ mp n hr₂ hnd₂ hsym₂ v w y hvw
+          ((cc y).mp hy.1) hyw
+        exact ⟨s, ⟨(cc s).mpr s1, ltn₂ s v s2⟩, s2, fun y' hy' hl => s3 y' ((cc y').mp hy'.1) hl⟩)
+    obtain ⟨v, hv⟩ := lab₁ x ⟨hx, hxn⟩
+    have hv2 := (key v x ⟨hx, hxn⟩).mp hv
+    unfold isLab at hv hv2
+    rw [hv, hv2]
+  · rw [List.getElem?_eq_none (by rw [dbscan_length nbrs₁ mp n hr₁ hnd₁ hsym₁]; omega),
+      List.getElem?_eq_none (by rw [dbscan_length nbrs₂ mp n hr₂ hnd₂ hsym₂]; omega)]
+
+/-- **a border sample all of whose core neighbours lie in one cluster carries the same label in both
+runs** — so the two label vectors can differ only on a border sample shared by two clusters -/
+theorem dbscan_unshared_border_determined (x : Nat) (hb : ¬ core nbrs₁ mp x)
+    (hone : ∀ y z v w, core nbrs₁ mp y → core nbrs₁ mp z → x ∈ nbrs₁ y → x ∈ nbrs₁ z →
+      isLab (dbscan (some nbrs₁) mp n) y v → isLab (dbscan (some nbrs₁) mp n) z w → v = w) :
+    (dbscan (some nbrs₁) mp n)[x]? = (dbscan (some nbrs₂) mp n)[x]? := by
+  have det := dbscan_core_labels_determined nbrs₁ nbrs₂ mp n hr₁ hnd₁ hsym₁ hr₂ hnd₂ hsym₂ hset
+  have bd := dbscan_border_determined nbrs₁ nbrs₂ mp n hr₁ hnd₁ hsym₁ hr₂ hnd₂ hsym₂ hset x hb
+  by_cases hxn : x < n
+  · have l1 : x < (dbscan (some nbrs₁) mp n).length := by rw [dbscan_length nbrs₁ mp n hr₁ hnd₁ hsym₁]; exact hxn
+    have l2 : x < (dbscan (some nbrs₂) mp n).length := by rw [dbscan_length nbrs₂ mp n hr₂ hnd₂ hsym₂]; exact hxn
+    rcases lab_cases _ x l1 with u1 | ⟨v1, h1⟩
+    · have n1 := (unl_iff _ _).mp u1
+      rw [n1, ((dbscan_noise_determined nbrs₁ nbrs₂ mp n hr₁ hnd₁ hsym₁ hr₂ hnd₂ hsym₂ hset x).mp n1)]
+    · obtain ⟨v2, h2⟩ := (dbscan_labelled_determined nbrs₁ nbrs₂ mp n hr₁ hnd₁ hsym₁ hr₂ hnd₂ hsym₂ hset x hxn).mp ⟨v1, h1⟩
+      obtain ⟨y1, c1, e1, m1⟩ := bd.1 v1 h1
+      obtain ⟨y2, c2, e2, m2⟩ := bd.2 v2 h2
+      -- `y2` carries `v2` in run 2, hence (core labels determined) in run 1
+      have e2' : isLab (dbscan (some nbrs₁) mp n) y2 v2 := by
+        unfold isLab at e2 ⊢; rw [det y2 c2]; exact e2
+      have := hone y1 y2 v1 v2 c1 c2 m1 m2 e1 e2'
+      subst this
+      unfold isLab at h1 h2; rw [h1, h2]
+  · rw [List.getElem?_eq_none (by rw [dbscan_length nbrs₁ mp n hr₁ hnd₁ hsym₁]; omega),
+      List.getElem?_eq_none (by rw [dbscan_length nbrs₂ mp n hr₂ hnd₂ hsym₂]; omega)]
+
+/-- **the density clustering is a function of the neighbour relation** (the uniqueness half of the
+specification), everything in one statement -/
+theorem dbscan_determined_by_relation :
+    (∀ x, x < n → ((∃ v, isLab (dbscan (some nbrs₁) mp n) x v) ↔ (∃ v, isLab (dbscan (some nbrs₂) mp n) x v))) ∧
+    (∀ x : Nat, (dbscan (some nbrs₁) mp n)[x]? = some none ↔ (dbscan (some nbrs₂) mp n)[x]? = some none) ∧
+    (∀ x y, core nbrs₁ mp x → core nbrs₁ mp y →
+      ((∃ v, isLab (dbscan (some nbrs₁) mp n) x v ∧ isLab (dbscan (some nbrs₁) mp n) y v) ↔
+       (∃ v, isLab (dbscan (some nbrs₂) mp n) x v ∧ isLab (dbscan (some nbrs₂) mp n) y v))) ∧
+    (∀ x : Nat, core nbrs₁ mp x → (dbscan (some nbrs₁) mp n)[x]? = (dbscan (some nbrs₂) mp n)[x]?) ∧
+    (∀ x, ¬ core nbrs₁ mp x →
+      (∀ v, isLab (dbscan (some nbrs₁) mp n) x v →
+        ∃ y, core nbrs₁ mp y ∧ isLab (dbscan (some nbrs₁) mp n) y v ∧ x ∈ nbrs₁ y) ∧
+      (∀ v, isLab (dbscan (some nbrs₂) mp n) x v →
+        ∃ y, core nbrs₁ mp y ∧ isLab (dbscan (some nbrs₂) mp n) y v ∧ x ∈ nbrs₁ y)) :=
+  ⟨dbscan_labelled_determined nbrs₁ nbrs₂ mp n hr₁ hnd₁ hsym₁ hr₂ hnd₂ hsym₂ hset,
+   dbscan_noise_determined nbrs₁ nbrs₂ mp n hr₁ hnd₁ hsym₁ hr₂ hnd₂ hsym₂ hset,
+   dbscan_core_partition_determined nbrs₁ nbrs₂ mp n hr₁ hnd₁ hsym₁ hr₂ hnd₂ hsym₂ hset,
+   dbscan_core_labels_determined nbrs₁ nbrs₂ mp n hr₁ hnd₁ hsym₁ hr₂ hnd₂ hsym₂ hset,
+   dbscan_border_determined nbrs₁ nbrs₂ mp n hr₁ hnd₁ hsym₁ hr₂ hnd₂ hsym₂ hset⟩
+
+end determined
+
+/-- non-vacuity of the section above: the same relation returned in two different orders (as a linear
+scan and a tree would): two clusters `{0,1,2,(3)}` and `{(3),4,5,6}` around the core samples 2 and 4
+(`min_points = 4`), sample 3 a border sample in range of both, sample 7 noise. -/
+def exA : Nat → List Nat
+  | 0 => [0, 1, 2]
+  | 1 => [0, 1, 2]
+  | 2 => [0, 1, 2, 3]
+  | 3 => [2, 3, 4]
+  | 4 => [3, 4, 5, 6]
+  | 5 => [4, 5, 6]
+  | 6 => [4, 5, 6]
+  | 7 => [7]
+  | _ => []
+def exB : Nat → List Nat
+  | 0 => [2, 0, 1]
+  | 1 => [1, 2, 0]
+  | 2 => [3, 2, 1, 0]
+  | 3 => [4, 3, 2]
+  | 4 => [6, 3, 5, 4]
+  | 5 => [5, 6, 4]
+  | 6 => [4, 6, 5]
+  | 7 => [7]
+  | _ => []
+
+example : dbscan (some exA) 4 8 = [some 0, some 0, some 0, some 0, some 1, some 1, some 1, none] := by decide
+example : dbscan (some exB) 4 8 = [some 0, some 0, some 0, some 0, some 1, some 1, some 1, none] := by decide
+example : ∀ i j, j ∈ exA i ↔ j ∈ exB i := by
+  intro i j
+  match i with
+  | 0 | 1 | 2 | 3 | 4 | 5 | 6 | 7 => simp [exA, exB] <;> omega
+  | _ + 8 => simp [exA, exB]
+example : (∀ i, ∀ j ∈ exB i, j < 8) ∧ (∀ i, (exB i).Nodup) ∧ (∀ i j, j ∈ exB i → i ∈ exB j) := by
+  refine ⟨?_, ?_, ?_⟩
+  · intro i j h
+    match i with
+    | 0 | 1 | 2 | 3 | 4 | 5 | 6 | 7 => simp [exB] at h; omega
+    | _ + 8 => simp [exB] at h
+  · intro i
+    match i with
+    | 0 | 1 | 2 | 3 | 4 | 5 | 6 | 7 => simp [exB]
+    | _ + 8 => simp [exB]
+  · intro i j h
+    match i with
+    | 0 | 1 | 2 | 3 | 4 | 5 | 6 | 7 => simp [exB] at h; rcases h with rfl | rfl | rfl | rfl <;> simp [exB]
+    | _ + 8 => simp [exB] at h
+example : (∀ i, ∀ j ∈ exA i, j < 8) ∧ (∀ i, (exA i).Nodup) ∧ (∀ i j, j ∈ exA i → i ∈ exA j) := by
+  refine ⟨?_, ?_, ?_⟩
+  · intro i j h
+    match i with
+    | 0 | 1 | 2 | 3 | 4 | 5 | 6 | 7 => simp [exA] at h; omega
+    | _ + 8 => simp [exA] at h
+  · intro i
+    match i with
+    | 0 | 1 | 2 | 3 | 4 | 5 | 6 | 7 => simp [exA]
+    | _ + 8 => simp [exA]
+  · intro i j h
+    match i with
+    | 0 | 1 | 2 | 3 | 4 | 5 | 6 | 7 => simp [exA] at h; rcases h with rfl | rfl | rfl | rfl <;> simp [exA]
+    | _ + 8 => simp [exA] at h
+/-- sample 3 is the shared border sample: core samples 2 (cluster 0) and 4 (cluster 1) both reach it -/
+example : core exA 4 2 ∧ core exA 4 4 ∧ ¬ core exA 4 3 ∧ 3 ∈ exA 2 ∧ 3 ∈ exA 4 := by
+  refine ⟨by unfold core; decide, by unfold core; decide, by unfold core; decide, by decide, by decide⟩
+
 /-! ### DBSCAN in the terms of the definition: neighbourhood `{j < n | dist i j < tol}` of a symmetric distance
 
 `rangeQuery dist tol n` satisfies the three hypotheses of the section above for **every** symmetric
@@ -276,6 +557,67 @@ example : (∀ i, ∀ j ∈ exNbrs i, j < 5) := by
   match i with
   | 0 | 1 | 2 | 3 | 4 => simp [exNbrs] at h; omega
   | _ + 5 => simp [exNbrs] at h
+
+section optics_determined
+open LinfaSpec.Optics
+variable {D : Type} [LinearOrder D]
+
+/-- **what of the OPTICS result is a function of the relation and the distances** (two query results
+`nbrs₁ i ~ nbrs₂ i` that are permutations of each other for every sample, as two indices return them):
+(a) both orderings list the same samples (each once); (b) a sample carries the same core distance in
+both; (c) every defined reachability of the second run is `max(core(o), dist(x, o))` for a sample `o`
+listed strictly earlier *in that run*, where `core(o)` is the core distance computed from the **first**
+relation and `x` is in range of `o` in the first relation.  Needs no duplicate-freeness; the identity
+of the two orderings is `optics_ordering_determined` below. -/
+theorem optics_determined_by_relation (nbrs₁ nbrs₂ : Nat → List Nat) (dist : Nat → Nat → D) (mp n : Nat)
+    (hrange : ∀ i, ∀ j ∈ nbrs₁ i, j < n) (hperm : ∀ i, (nbrs₁ i).Perm (nbrs₂ i)) :
+    ((optics (some nbrs₁) dist mp n).map (·.index)).Perm ((optics (some nbrs₂) dist mp n).map (·.index)) ∧
+    (∀ e₁ ∈ optics (some nbrs₁) dist mp n, ∀ e₂ ∈ optics (some nbrs₂) dist mp n,
+      e₁.index = e₂.index → e₁.core = e₂.core) ∧
+    (∀ (p : Nat) (e : Entry D), (optics (some nbrs₂) dist mp n)[p]? = some e → ∀ r : D, e.reach = some r →
+      ∃ (q : Nat) (o : Entry D) (c : D), q < p ∧ (optics (some nbrs₂) dist mp n)[q]? = some o ∧
+        coreDist dist mp o.index (findNeighbors nbrs₁ dist o.index) = some c ∧
+        e.index ∈ nbrs₁ o.index ∧ r = max c (dist e.index o.index)) := by
+  have hrange₂ : ∀ i, ∀ j ∈ nbrs₂ i, j < n := fun i j hj => hrange i j ((hperm i).symm.subset hj)
+  have ok₁ := foldl_CoreOK nbrs₁ dist mp n (List.range n) (Optics.init n)
+    (by intro e he; simp [Optics.init] at he)
+  have ok₂ := foldl_CoreOK nbrs₂ dist mp n (List.range n) (Optics.init n)
+    (by intro e he; simp [Optics.init] at he)
+  refine ⟨?_, ?_, ?_⟩
+  · obtain ⟨nd₁, m₁⟩ := optics_lists_each_once nbrs₁ dist mp n hrange
+    obtain ⟨nd₂, m₂⟩ := optics_lists_each_once nbrs₂ dist mp n hrange₂
+    exact (List.perm_ext_iff_of_nodup nd₁ nd₂).mpr fun j => (m₁ j).trans (m₂ j).symm
+  · intro e₁ h₁ e₂ h₂ hidx
+    have a := ok₁ e₁ h₁
+    have b := ok₂ e₂ h₂
+    rw [a, b, hidx]
+    exact optics_core_distance_index_independent nbrs₁ nbrs₂ dist mp e₂.index (hperm e₂.index)
+  · intro p e he r hr
+    obtain ⟨q, o, c, hq, ho, hc, hm, hrr⟩ := optics_reachability_witness nbrs₂ dist mp n hrange₂ p e he r hr
+    refine ⟨q, o, c, hq, ho, ?_, (hperm o.index).symm.subset hm, hrr⟩
+    rw [optics_core_distance_index_independent nbrs₁ nbrs₂ dist mp o.index (hperm o.index),
+      ← ok₂ o (List.mem_of_getElem? ho)]
+    exact hc
+
+/-- **the whole OPTICS result — ordering, core distances, reachabilities — is a function of the
+relation and the distances**: two neighbour functions whose (duplicate-free) query results are
+permutations of each other give the *identical* list of entries.  (In the code the seeds are re-sorted by
+position before every selection, so neither the order in which an index returns the neighbours nor the
+order in which seeds were pushed reaches the result.) -/
+theorem optics_ordering_determined (nbrs₁ nbrs₂ : Nat → List Nat) (dist : Nat → Nat → D) (mp n : Nat)
+    (hperm : ∀ i, (nbrs₁ i).Perm (nbrs₂ i)) (hnd : ∀ i, (nbrs₁ i).Nodup) :
+    optics (some nbrs₁) dist mp n = optics (some nbrs₂) dist mp n :=
+  (Optics.foldl_Sim nbrs₁ nbrs₂ dist mp hperm hnd n (List.range n) (Optics.init n) (Optics.init n)
+    ⟨rfl, rfl, rfl, List.Perm.refl _⟩).out
+
+/-- non-vacuity: samples `[0, 6, 1, 5, 2]` (`exDist`), all within the tolerance of each other,
+`min_points = 3`; the query for sample 0 returned in two different orders -/
+example : ∀ i, ((fun _ : Nat => [0, 2, 3, 4, 1]) i).Perm ((fun _ : Nat => [0, 1, 2, 4, 3]) i) := by
+  intro i; show ([0, 2, 3, 4, 1] : List Nat).Perm [0, 1, 2, 4, 3]; decide
+example : ∀ i, ((fun _ : Nat => [0, 2, 3, 4, 1]) i).Nodup := by
+  intro i; show ([0, 2, 3, 4, 1] : List Nat).Nodup; decide
+
+end optics_determined
 
 /-- non-vacuity (the witness of the fixed defect): samples `[0, 3, 0.5, 2.5, 1, 9, 9.5]` ×2 (so that the
 distances are naturals), tolerance 5.5, `min_points = 3`.  The linear search returns `[0, 2, 3, 4]` for
